@@ -252,7 +252,8 @@ class StubLedger:
     for _name in ('update_history', 'get_local_status_and_history', 'request_synced_transactions', 'request_transactions',
                   '_single_batch', 'maybe_verify_transaction', 'maybe_has_channel_key', '_sync_and_save_batch', '_sync',
                   'get_address_manager_for_address', 'announce_addresses', 'subscribe_addresses', 'process_status_update',
-                  'add_account', 'get_utxos', 'get_txos', 'get_addresses', 'constraint_spending_utxos'):
+                  'add_account', 'get_utxos', 'get_txos', 'get_addresses', 'constraint_spending_utxos', 'get_spendable_utxos',
+                  'get_effective_amount_estimators', 'reserve_outputs', 'release_outputs', 'release_tx'):
         locals()[_name] = Ledger.__dict__[_name]
     del _name
     for _name in ('hash160_to_address', 'hash160_to_script_address', 'public_key_to_address', 'get_id', 'is_pubkey_address',
@@ -304,7 +305,7 @@ class _Bare(StubLedger):
         self.db = None
 
 
-def build_world(spec, addresses, change=()):
+def build_world(spec, addresses, change=(), amounts=None):
     """Real raw transactions for the chosen shape.  spec: list of (source, [destinations]); source -1 = an outpoint the wallet
     knows nothing about, otherwise the index of an earlier wallet-owned, still unspent output in `owned`; destination d <
     len(addresses) pays that wallet address, len(addresses) a foreign key hash, len(addresses)+1 a foreign script hash."""
@@ -332,7 +333,7 @@ def build_world(spec, addresses, change=()):
                 if ok not in par:
                     par.append(ok)
         for d in dests:
-            amount = AMOUNTS[amount_i]
+            amount = (amounts or AMOUNTS)[amount_i]
             amount_i += 1
             if d < N_DEST:
                 tx.add_outputs([Output.pay_pubkey_hash(amount, Ledger.address_to_hash160(addresses[d]))])
